@@ -525,6 +525,23 @@ def workload(prog, ctx):
 
 
 def _workload(prog, ctx, fn, sx, w, t, k, R, np):
+    # the partition is integer arithmetic: the closed form below is compared over the reals, which says nothing about an index that
+    # is the truncation of a floating-point term (at the places where the exact value is an integer, one ulp below gives index-1)
+    from ..ir import all_exprs
+    trunc = []
+    for e_ in all_exprs(fn):
+        if e_.get('k') == 'Cast' and e_.get('ck') == 'FloatingToIntegral':
+            inner = strip_casts(e_['e'])
+            rounded = inner.get('k') == 'Call' and (inner.get('callee') or {}).get('name') in ('floor', 'ceil', 'round', 'lround', 'llround', 'rint', 'lrint', 'nearbyint', 'trunc')
+            if inner.get('k') == 'Lit' or rounded:
+                continue
+            trunc.append(e_)
+    if trunc:
+        ctx.undecided(R, 'Workload_Distribution:integer-arithmetic', fn, 'an index is the truncation of the floating-point term `%s`: where its exact value is an integer the '
+                      'result depends on rounding (one ulp below gives the index minus one), which a comparison over the reals does not decide' % show(trunc[0]['e'])[:80],
+                      line=trunc[0].get('l'))
+    else:
+        ctx.holds(R, 'Workload_Distribution:integer-arithmetic', fn, 'no index passes through a truncated floating-point term', line=fn.line)
     try:
         outs = [o for o in sx.run()]
     except Undecided as e:
